@@ -1,6 +1,7 @@
 import GoframeModel.Ops.Group
 import GoframeModel.Spec.Group
-import GoframeModel.Lemmas.Refine
+import GoframeModel.Lemmas.RefineE
+import GoframeModel.Lemmas.Group
 /-
   C04 — Groupby partitions the rows exactly by key.
   Single key: proved at full strength. Key list: the code's composite key (the `%v` texts joined by `|`)
@@ -24,13 +25,29 @@ theorem groupby_single_spec {f : Frame} {n : Nat} (hs : f.Sorted) (hr : f.RectN 
     (hk : f.has k = true) (hp : PlainKeys f [k]) :
     ∃ g, f.groupByString k = .ok g ∧ g.key = k ∧
       (groupsOf g).map (fun kr => ([kr.1], kr.2)) = Spec.groupsSpec [k] (allRows f) := by
-  sorry
+  have _ := hs; have _ := hr  -- sortedness and rectangularity are not needed by the proof
+  have hplain := Frame.keyTuple_allRows_plain f [k] hp
+  have hκ : ∀ r ∈ allRows f, (Row.getD r k).plain = true :=
+    fun r hr => hplain r hr _ (by simp [Spec.keyTuple])
+  refine ⟨Grouped.foldRows (fun r => Row.getD r k) (allRows f) { groups := [], keyOrder := [], key := k },
+    ?_, Grouped.foldRows_key _ _ _, ?_⟩
+  · simp [groupByString, hk, Grouped.foldRows]
+  · have h1 := Grouped.foldRows_groupsOf (fun r => Row.getD r k) k (allRows f) hκ
+    simp only at h1
+    unfold groupsOf
+    rw [h1, Spec.groupsSpec_eq_reps [k] (allRows f) hplain,
+      reps_congr (fun r => Row.getD r k) (Spec.keyTuple [k]) (allRows f)
+        (by intro a _ b _; simp [Spec.keyTuple]),
+      List.map_map]
+    apply List.map_congr_left
+    intro r0 _
+    simp [Spec.keyTuple]
 
 /-- the specification's groups are a partition: every row in exactly one group -/
 theorem groupsSpec_partition (ks : List Str) (rows : List Row)
     (hp : ∀ r ∈ rows, ∀ c ∈ Spec.keyTuple ks r, c.plain = true) :
-    Spec.isPartition ks rows (Spec.groupsSpec ks rows) = true := by
-  sorry
+    Spec.isPartition ks rows (Spec.groupsSpec ks rows) = true :=
+  Spec.groupsSpec_isPartition ks rows hp
 
 /-- rendering of key tuples is injective on the tuples of this frame (what K1 violates) -/
 def RenderInj (ω : Oracle) (ks : List Str) (rows : List Row) : Prop :=
@@ -44,7 +61,41 @@ theorem groupby_list_spec_partial (ω : Oracle) {f : Frame} {n : Nat} (hs : f.So
     (hk : ∀ k ∈ ks, f.has k = true) (hp : PlainKeys f ks) (hinj : RenderInj ω ks (allRows f)) :
     ∃ g, f.groupByList ω ks = .ok g ∧
       (groupsOf g).map (·.2) = (Spec.groupsSpec ks (allRows f)).map (·.2) := by
-  sorry
+  have _ := hs; have _ := hr  -- sortedness and rectangularity are not needed by the proof
+  have hplain := Frame.keyTuple_allRows_plain f ks hp
+  have hκ : ∀ r ∈ allRows f, (listKey ω ks r).plain = true := fun _ _ => rfl
+  have hkey : ∀ r, listKey ω ks r = .str (joinBar ((Spec.keyTuple ks r).map ω.fmtV)) := by
+    intro r; simp [listKey, Spec.keyTuple, List.map_map, Function.comp_def]
+  have hiff : ∀ a ∈ allRows f, ∀ b ∈ allRows f,
+      (listKey ω ks a = listKey ω ks b ↔ Spec.keyTuple ks a = Spec.keyTuple ks b) := by
+    intro a ha b hb
+    constructor
+    · intro h
+      rw [hkey a, hkey b] at h
+      have ht := hinj a ha b hb (Cell.str.inj h)
+      rw [Spec.tupleEq_eq_of_plain _ _ (hplain a ha) (hplain b hb)] at ht
+      exact of_decide_eq_true ht
+    · intro h
+      rw [hkey a, hkey b, h]
+  have hany : ks.any (fun k => !f.has k) = false := by
+    rw [List.any_eq_false]
+    intro k hkm
+    simp [hk k hkm]
+  refine ⟨Grouped.foldRows (listKey ω ks) (allRows f) { groups := [], keyOrder := [], key := [] }, ?_, ?_⟩
+  · simp [groupByList, hany, Grouped.foldRows]
+  · have h1 := Grouped.foldRows_groupsOf (listKey ω ks) [] (allRows f) hκ
+    simp only at h1
+    unfold groupsOf
+    rw [h1, Spec.groupsSpec_eq_reps ks (allRows f) hplain,
+      reps_congr (listKey ω ks) (Spec.keyTuple ks) (allRows f) hiff,
+      List.map_map, List.map_map]
+    apply List.map_congr_left
+    intro r0 hr0
+    have hmem : r0 ∈ allRows f := reps_subset _ _ r0 hr0
+    simp only [Function.comp]
+    apply List.filter_congr
+    intro r hr
+    exact decide_eq_decide.2 (hiff r hr r0 hmem)
 
 def ωplain : Oracle where
   fmtFloat _ _ := []
@@ -67,6 +118,10 @@ theorem groupby_list_collides :
 theorem groupby_missing (ω : Oracle) (f : Frame) (k : Str) (ks : List Str)
     (h : f.has k = false) (hks : k ∈ ks) :
     (f.groupByString k).isErr = true ∧ (f.groupByList ω ks).isErr = true := by
-  sorry
+  constructor
+  · simp [groupByString, h, Outcome.isErr]
+  · have hany : ks.any (fun k => !f.has k) = true :=
+      List.any_eq_true.2 ⟨k, hks, by simp [h]⟩
+    simp [groupByList, hany, Outcome.isErr]
 
 end Goframe.C04
